@@ -808,7 +808,7 @@ impl MT104 {
                 let amount_33b = field_33b.amount;
 
                 // Check if both currency and amount are the same
-                if currency_32b == currency_33b && (amount_32b - amount_33b).abs() < 0.01 {
+                if currency_32b == currency_33b && (amount_32b - amount_33b).abs() < 0.005 {
                     errors.push(SwiftValidationError::content_error(
                         "D21",
                         "33B",
